@@ -25,15 +25,20 @@ MIN = {"quick": {"structure": 1500, "range[-1,1]": 1500, "inv:label-values": 700
 REQUIRED_CELLS = {t: tuple("path_type:" + p for p in ("shortest", "fastest", "foremost", "shortest_fastest",
                                                      "fastest_shortest")) + ("result:None", "profile_size:2",
                                                                              "ids:str", "ids:int", "alphas:raw-floats",
-                                                                             "relabel:mixed-types")
+                                                                             "relabel:mixed-types",
+                                                                             "labels:equal-but-distinct-objects")
                   for t in ("quick", "thorough")}
 PTYPES = ("shortest", "fastest", "foremost", "shortest_fastest", "fastest_shortest")
 
 
-def build(dn, presence, labels, rename=None, relabel=None):
+def build(dn, presence, labels, rename=None, relabel=None, fresh=False):
     """DynGraph from presence {(u,v): instants} + node labels {node: {attr: value}}"""
     rn = (lambda x: x) if rename is None else (lambda x: rename[x])
     rl = (lambda a, v: v) if relabel is None else (lambda a, v: relabel[a][v])
+    if fresh:
+        # every node carries its own string object (built at run time), equal in value to its peers'
+        base = rl
+        rl = lambda a, v: "".join(["label-", str(base(a, v))])
     G = dn.DynGraph()
     for (u, v), inst in presence.items():
         for a, b in runs(set(inst)):
@@ -82,15 +87,18 @@ def one(ctx, dn):
     attrs = ["l1", "l2"][:rng.randint(1, 2)]
     nvals = rng.randint(1, 3)
     labels = {x: {a: rng.choice(["a", "b", "c"][:nvals]) for a in attrs} for x in nodes}
+    fresh_objects = rng.random() < 0.3
+    if fresh_objects:
+        ctx.cell("labels:equal-but-distinct-objects")
     psize = rng.randint(1, len(attrs))
     if rng.random() < 0.25:
         # raw float alphas: successive calls whose alphas agree to two decimals but differ
-        alphas = [rng.choice((1.0, 1.004, 0.996, 2.5, 2.504, 0.5, 0.496))]
+        alphas = [rng.choice((1.0, 1.004, 0.996, 2.5, 2.504, 0.5, 0.496, 0.125, 1.115, 2.375, 0.333))]
         ctx.cell("alphas:raw-floats")
     else:
         alphas = rng.sample([0.5, 1, 2.5], rng.randint(1, 2))
     ptype = rng.choice(PTYPES)
-    G = build(dn, presence, labels)
+    G = build(dn, presence, labels, fresh=fresh_objects)
     m = Model(False, True)
     for (u, v), inst in presence.items():
         for t in inst:
@@ -145,7 +153,7 @@ def one(ctx, dn):
         relabel = {a: dict(zip(["a", "b", "c"], pool)) for a in attrs}
         ctx.cell("relabel:mixed-types")
     try:
-        r2 = call(build(dn, presence, labels, relabel=relabel))
+        r2 = call(build(dn, presence, labels, relabel=relabel))     # shared label objects on this side
         ctx.expect("inv:label-values", r2, res, dict(q, relabel=relabel), eq=close)
         # invariance under renaming of node ids (same history, same insertion order)
         shuffled = list(nodes)
